@@ -7,8 +7,8 @@ open Incrgen
 type case = Incrgen.case
 let id = "C03"
 let rule = "RESP replication streams (SELECT switches incl. filtered and repeated dbs, single/multi-key writes, PING, MULTI/EXEC blocks, sentinel hello \
-publishes, eval/script, opinfo, keep-alive newlines, upper/lower-case names) x 8 configurations (db/key/lua filters, target.db in {-1,0,2}, target.db with resume, resume on/off, \
-sender count 1/2/3/100, sender size 40/1e6) x resumed start db x a 700 ms pause inside the stream (ticker flushes); fed through the real \
+publishes, eval/script, opinfo, keep-alive newlines, upper/lower-case names) x 12 configurations (db/key/lua filters, target.db in {-1,0,2,5}, target.db with resume, target.db naming a database the lists exclude, resume on/off, \
+sender count 1/2/3/100, sender size 40/1e6) x resumed start db x a 700 ms pause inside the stream (ticker flushes), plus a stream of 2100 commands with metric = true and a one-slot delay-sampling channel; fed through the real \
 parser/sender goroutine pair (hooks) into a recording connection; non-trivial = at least one forwarded command and one barrier or threshold flush; distinct by wire line"
 
 let gen st tier =
@@ -16,7 +16,13 @@ let gen st tier =
   List.concat_map (fun cfg -> List.init per (fun _ -> gen_case st cfg)) configs
 
 (* F10 witness: target.db = 2 and the first source select is `select 2` *)
-let corpus = [ { cfg = List.nth configs 3; startdb = 0; base = 0; cmds = [ ([ "select"; "2" ], 0); ([ "set"; "a1"; "v" ], 0) ]; cuts = [ (0, 0) ] } ]
+(* configuration 3: sender.count = 1, no resume - the send id advances by exactly one per command, so it does reach the multiples of 1000
+   at which a full delay-sampling channel is consulted *)
+let long_stream n = { cfg = List.nth configs 3; startdb = 0; base = 1000;
+                      cmds = ([ "select"; "0" ], 0) :: List.init n (fun i -> ((if i mod 7 = 3 then [ "incr"; "a1" ] else [ "set"; "a2"; string_of_int i ]), 0)); cuts = [ (0, 0) ] }
+let corpus = [ { cfg = List.nth configs 3; startdb = 0; base = 0; cmds = [ ([ "select"; "2" ], 0); ([ "set"; "a1"; "v" ], 0) ]; cuts = [ (0, 0) ] };
+               (* more than 1000 commands with the metric path on and a full delay-sampling channel: nothing may stall *)
+               long_stream 2100 ]
 let to_line = Incrgen.to_line
 let show = Incrgen.show
 
